@@ -306,10 +306,21 @@ def _prog_named(E, f, g, h):
     a2 = A.new_unit('xare2', 'Are', Term(((Decimal(100), 1), (x0, 2))))
     a3 = A.new_unit('xsq', None, Term(((g4, 2), (Decimal(3), -1))))      # 144 / 3
     a4 = A.new_unit('xsq2', None, Term(((x0, 2), (7, 3))))               # int with exponent 3 after the unit
-    which = E.choice('type', ['length', 'area'])
+    which = E.choice('type', ['length', 'area', 'per-length'])
     if which == 'length':
         return X, [x0, g1, g2, g3, g4], {x0: 1, g1: f, g2: h, g3: 5, g4: 12}
-    return A, [a0, a1, a2, a3, a4], {a0: 1, a1: 100, a2: 100, a3: 48, a4: 343}
+    if which == 'area':
+        return A, [a0, a1, a2, a3, a4], {a0: 1, a1: 100, a2: 100, a3: 48, a4: 343}
+    # units declared by the reciprocal of (normalised) definitions of other units
+    R = _mk_cls('XPer', define_as=X ** -1)
+    r0 = R.ref_unit
+    r1 = R.new_unit('pgy', None, g4.definition.reciprocal())                 # 1 / (12 x0)
+    r2 = R.new_unit('pgy2', None, g4.normalized_definition.reciprocal())
+    r3 = R.new_unit('pgx', None, g3.definition.normalized().reciprocal())    # 1 / (5 x0)
+    r4 = R.new_unit('pg1', None, 1 / g1.definition)                          # 1 / (f x0)
+    r5 = R.new_unit('pgy3', None, Term(((g4, -1),)))
+    return R, [r0, r1, r2, r3, r4, r5], {r0: 1, r1: Fraction(1, 12), r2: Fraction(1, 12), r3: Fraction(1, 5), r4: 1 / f,
+                                          r5: Fraction(1, 12)}
 
 
 USER_PROGRAMS = [_prog_chain, _prog_derived, _prog_term_mixed, _prog_named]
